@@ -5,6 +5,7 @@ import NakenVerif.FileIO.ReadImpl
 import NakenVerif.FileIO.WdcImpl
 import NakenVerif.FileIO.Uf2Impl
 import NakenVerif.FileIO.ElfImpl
+import NakenVerif.FileIO.ElfReadImpl
 import Std.Data.HashMap
 import NakenVerif.Generated.CpuList
 namespace Driver.FileIO
@@ -134,6 +135,25 @@ def showLoaded (typ : String) (r : ReadImpl.Loaded) : String :=
   "ret=" ++ toString (if ok then 0 else r.ret) ++ " type=" ++ typ ++ " low=" ++ natHex r.low ++ " high=" ++ natHex r.high ++
     " end=l cpu=" ++ (if ok then "msp430" else "-") ++ " nz=" ++ dumpNonZero r.writes ++ " syms=-"
 
+def bytesToString (bs : List UInt8) : String := String.ofList (bs.map (fun b => Char.ofNat b.toNat))
+
+/-- `Symbols::append` on a fresh table: a name that is already there or longer than 254 characters is refused -/
+def symTable (calls : List (List UInt8 × Nat)) : List (List UInt8 × Nat) :=
+  (calls.foldl (fun (acc : List (List UInt8 × Nat)) (c : List UInt8 × Nat) =>
+    if c.1.length + 1 > 255 ∨ acc.any (fun e => e.1 == c.1) then acc else c :: acc) []).reverse
+
+def showSyms (t : List (List UInt8 × Nat)) : String :=
+  if t.isEmpty then "-" else ",".intercalate (t.map (fun e => bytesToString e.1 ++ "=" ++ natHex e.2))
+
+def showElf (r : ElfReadImpl.Loaded) : String :=
+  if r.ret == -99 then "skip-large" else
+  if r.ret < 0 then "ret=" ++ toString r.ret ++ " type=elf low=ffffffff high=0 end=l cpu=- nz=- syms=-" else
+  -- file_read(): set_cpu_by_type(cpu_type) copies the CPU's name and default endian
+  let cpu := NakenVerif.Generated.cpuList.find? (fun c => c.type == r.cpuType)
+  let (name, big) := match cpu with | some c => (c.name, c.bigEndian) | none => ("-", r.big)
+  "ret=0 type=elf low=" ++ natHex r.low ++ " high=" ++ natHex r.high ++ " end=" ++ (if big then "b" else "l") ++
+    " cpu=" ++ name ++ " nz=" ++ dumpNonZero r.writes ++ " syms=" ++ showSyms (symTable r.syms)
+
 /-- `rd <fmt> <ext> <file hex> [start]` for fmt = hex, srec, bin -/
 def handleRd (args : List String) : String :=
   match args with
@@ -149,6 +169,7 @@ def handleRd (args : List String) : String :=
     else if fmt == "wdc" then
       let r := WdcImpl.read bytes
       showLoaded "wdc" { ret := r.ret, writes := r.writes, low := r.low, high := r.high }
+    else if fmt == "elf" then showElf (ElfReadImpl.read 16777216 bytes)
     else "not-modelled"
   | _ => "bad-op"
 end Driver.FileIO
